@@ -30,8 +30,22 @@ pub fn corpus(thorough: bool) -> Vec<Job> {
 			(F::Toml, false) => 3,
 			(F::Toml, true) => 4,
 		};
-		for s in gen::token_seqs(&gen::alphabet(f), k) {
+		// thorough MessagePack: length 4 only behind a collection marker (40^4 unrestricted is 2.5 M inputs)
+		let kk = if f == F::Msgpack && thorough { 3 } else { k };
+		for s in gen::token_seqs(&gen::alphabet(f), kk) {
 			jobs.push(Job { input: s, src: f, origin: "tokens" });
+		}
+		if f == F::Msgpack && thorough {
+			let alpha = gen::alphabet(f);
+			for s in gen::token_seqs(&alpha, 3) {
+				if s.len() == 3 {
+					for first in [0x90u8, 0x91, 0x92, 0xdc, 0xdd, 0x80, 0x81, 0x82, 0xde, 0xdf] {
+						let mut v = vec![first];
+						v.extend_from_slice(&s);
+						jobs.push(Job { input: v, src: f, origin: "tokens" });
+					}
+				}
+			}
 		}
 		let seeds = gen::seeds(f);
 		for s in &seeds {
@@ -161,7 +175,7 @@ fn check_one(t: &mut Tally, input: &[u8], from: Option<F>, to: F, d: usize, all_
 	let chunks: &[usize] = if input.len() <= 2 { &[0] } else if input.len() > 100_000 { &[0, 65536] } else if input.len() > 4096 { &[0, 1, 4093] } else if thorough { &[0, 1, 2, 3, 7] } else { &[0, 1] };
 	let mut cache: Vec<(Outcome, String)> = vec![];
 	for &chunk in chunks {
-		let d_eff = if chunk == 0 && input.len() <= all_len { 64 } else if input.len() > 4096 { 0 } else { d };
+		let d_eff = if chunk == 0 && input.len() <= all_len { 64 } else if input.len() > 4096 { 0 } else if input.len() > 12 { d.min(1) } else { d };
 		let pol = policy(chunk, true, false, &marks);
 		let st = explore(d_eff, 6000, |env| {
 			let r = run_reader(SchedReader::new(input, env, pol.clone()), from, to);
